@@ -361,10 +361,9 @@ class Player:
 
         payoff_vector = self.payoff_vector(opponents_actions)
         if payoff_perturbation is not None:
-            try:
-                payoff_vector += payoff_perturbation
-            except TypeError:  # type mismatch
-                payoff_vector = payoff_vector + payoff_perturbation
+            # Not in place: for a 1-player game, payoff_vector is
+            # self.payoff_array itself
+            payoff_vector = payoff_vector + payoff_perturbation
 
         best_responses = \
             np.where(payoff_vector >= payoff_vector.max() - tol)[0]
